@@ -687,4 +687,37 @@ def cpItemsTrigger : List CpItem → Bool
   | .untyped (some v) :: rest => isXmlCodepoint v && cpItemsTrigger rest
   | _ :: _ => false
 
+/-! ## xpath_tokens/base.py: `XPathToken.compat_string_value` (fix-c09-4), the conversion used by the
+callers reachable from the XPath 1.0 parser (`string`, `concat`, `string-length`, `normalize-space`,
+and `validated_value(…, cls=str)` in compatibility mode)
+```
+if isinstance(obj, float) and self.parser.version == '1.0' and not math.isnan(obj):
+    if math.isinf(obj): return 'Infinity' if obj > 0 else '-Infinity'
+    value = format(Decimal(repr(obj)), 'f') if obj else '0'
+    return value.rstrip('0').rstrip('.') if '.' in value else value
+return self.string_value(obj)
+``` -/
+
+/-- CPython: `Decimal(repr(x))` for a finite non-zero float whose `repr` has the digits `digits` and
+the decimal point position `decpt` — coefficient digits and exponent of the resulting Decimal:
+`d.ddde±XX` → (digits, decpt − n); `ddd000.0` → (digits ++ zeros ++ [0], −1); `dd.ddd` and
+`0.000ddd` → (digits, decpt − n) (leading zeros are not part of the coefficient). -/
+def pyDecimalOfRepr (digits : List Nat) (decpt : Int) : List Nat × Int :=
+  if decpt ≤ -4 ∨ decpt > 16 then (digits, decpt - digits.length)
+  else if decpt ≥ digits.length then (digits ++ zeros (decpt - digits.length).toNat ++ [0], -1)
+  else (digits, decpt - digits.length)
+
+def compatStringValue (version10 : Bool) : NumArg → Str
+  | .finf false => if version10 then [73, 110, 102, 105, 110, 105, 116, 121] else stringValue (.finf false)
+  | .finf true => if version10 then [0x2D, 73, 110, 102, 105, 110, 105, 116, 121] else stringValue (.finf true)
+  | .flt neg digits decpt =>
+    if version10 then
+      if digits.all (· == 0) then [0x30]                       -- `if obj else '0'`
+      else
+        let (c, e) := pyDecimalOfRepr digits decpt
+        let value := pyDecimalF neg c e
+        if value.contains 0x2E then pyRstrip 0x2E (pyRstrip 0x30 value) else value
+    else stringValue (.flt neg digits decpt)
+  | a => stringValue a
+
 end EPV.Strings
